@@ -16,7 +16,13 @@ def impl(case):
     from genlm.grammar.lark_interface import interegular_to_wfsa
     out = {}
     try:
-        m = interegular_to_wfsa(case["pattern"], charset=set(case["charset"]))
+        cs = set(case["charset"])
+        if case.get("prev_pattern") is not None:
+            # the SAME set object is passed to a previous call (as LarkStuff.char_cfg does for every terminal)
+            interegular_to_wfsa(case["prev_pattern"], charset=cs)
+            out["charset_mutated"] = cs != set(case["charset"])
+        m = interegular_to_wfsa(case["pattern"], charset=cs)
+        out["charset_mutated"] = out.get("charset_mutated", False) or cs != set(case["charset"])
     except Exception as e:  # noqa
         return {"exc_build": type(e).__name__, "msg": str(e)[:200]}
     acc = []
@@ -57,7 +63,10 @@ def make_case(rng, i, tier):
     if tier == "thorough":
         L += 1 if len(cs) <= 4 else 0
     strings = ["".join(s) for s in gen.all_strings(cs, L)]
-    return {"id": i, "ast": ast, "pattern": regexgen.to_pattern(ast), "charset": cs, "strings": strings}
+    prev = None
+    if rng.random() < 0.5:
+        prev = regexgen.to_pattern(regexgen.gen_re(rng, 1, cs))
+    return {"id": i, "ast": ast, "pattern": regexgen.to_pattern(ast), "charset": cs, "strings": strings, "prev_pattern": prev}
 
 
 def corpus():
@@ -111,6 +120,8 @@ def run(ctx):
                     semantic.append(_viol(c, hs, "normalised", q, {"state": q, "arc_weights_plus_final": mval}))
                 else:
                     traces += 1
+            if res.get("charset_mutated"):
+                semantic.append(_viol(c, hs, "charset_mutated", None, "the caller's character set object was modified"))
             evaluations += 1
             if res["multi_char_symbols"]:
                 semantic.append(_viol(c, hs, "alphabet", None, {"multi_character_symbols": res["multi_char_symbols"]}))
